@@ -15,6 +15,7 @@ package props
 import (
 	"bytes"
 	"fmt"
+	"math"
 	"math/bits"
 	"os"
 	"testing"
@@ -400,4 +401,72 @@ func c15ModelMismatch(g *gen.G, format string, a ...any) {
 	fmt.Printf("TAPE-MODEL-DOES-NOT-APPLY (inconclusive, not a violation): "+format+"\n", a...)
 	gen.Flush()
 	os.Exit(3)
+}
+
+
+// TestC15_Frequencies: a coarse, deterministic statistical net under the exact counting argument of the in-package
+// part (which assumes the documented read pattern and reports "tape model does not apply" for any other algorithm,
+// uniform or not).  For a fixed ChaCha20 stream, N draws of UintN(n) must give every value a count within seven standard
+// deviations of N/n, and the first element of Permutation(k) / the sample of SubPermutation(k, 1) likewise.  The stream
+// is a pure function of the drawn seed, so the outcome is reproducible; the bound is wide enough that a uniform
+// algorithm fails with probability below 1e-8 per case, and a bias of a factor two on one value is 10 sigma away.
+func TestC15_Frequencies(t *testing.T) {
+	gen.Run(t, "C15", func(g *gen.G) {
+		seed := g.Bytes("seed", 32, 32)
+		r, err := random.NewChacha20PRG(seed, nil)
+		if err != nil {
+			g.Fatalf("NewChacha20PRG: %v", err)
+		}
+		n := []uint64{3, 5, 6, 7, 10, 100, 255, 256, 257, 258, 300, 384, 511, 513, 1000}[g.Pick("n", 15)]
+		N := 400 * int(n)
+		if N < 40000 {
+			N = 40000
+		}
+		counts := make([]int, n)
+		for i := 0; i < N; i++ {
+			v := r.UintN(n)
+			if v >= n {
+				g.Fatalf("UintN(%d) = %d", n, v)
+			}
+			counts[v]++
+		}
+		mean := float64(N) / float64(n)
+		sd := math.Sqrt(mean * (1 - 1/float64(n)))
+		for v, c := range counts {
+			if d := math.Abs(float64(c) - mean); d > 7*sd+1 {
+				g.Fatalf("UintN(%d): value %d occurred %d times in %d draws from one ChaCha20 stream, expected %.0f ± %.0f (seven standard deviations): not uniform", n, v, c, N, mean, 7*sd)
+			}
+		}
+		// first element of a permutation and a 1-sample
+		k := int([]uint64{3, 5, 8, 17, 64, 257, 300}[g.Pick("k", 7)])
+		M := 400 * k
+		if M < 20000 {
+			M = 20000
+		}
+		c1, c2 := make([]int, k), make([]int, k)
+		for i := 0; i < M; i++ {
+			p, err := r.Permutation(k)
+			if err != nil {
+				g.Fatalf("Permutation(%d): %v", k, err)
+			}
+			c1[p[0]]++
+			q, err := r.SubPermutation(k, 1)
+			if err != nil || len(q) != 1 {
+				g.Fatalf("SubPermutation(%d, 1): %v", k, err)
+			}
+			c2[q[0]]++
+		}
+		mean = float64(M) / float64(k)
+		sd = math.Sqrt(mean * (1 - 1/float64(k)))
+		for v := 0; v < k; v++ {
+			if d := math.Abs(float64(c1[v]) - mean); d > 7*sd+1 {
+				g.Fatalf("Permutation(%d): element %d came first %d times in %d permutations, expected %.0f ± %.0f: not uniform", k, v, c1[v], M, mean, 7*sd)
+			}
+			if d := math.Abs(float64(c2[v]) - mean); d > 7*sd+1 {
+				g.Fatalf("SubPermutation(%d, 1): element %d was sampled %d times in %d calls, expected %.0f ± %.0f: not uniform", k, v, c2[v], M, mean, 7*sd)
+			}
+		}
+		g.Class(fmt.Sprintf("frequencies:n=%d", n))
+		g.NonTrivial()
+	})
 }
